@@ -358,38 +358,47 @@ impl<'a, R: Resolve, U: Updater> Cloner for Importer<'a, R, U> {
             return Ok(Ref::new(new_ref));
         }
         let obj = self.resolver.get(old)?;
+        // the new reference is recorded before the object is cloned: a reference cycle ends at the memo
+        let promise = self.updater.promise::<T>();
+        let new_ref = promise.get_inner();
+        self.map.insert(old.get_inner(), new_ref);
         let clone = obj.deep_clone(self)?;
+        self.updater.fulfill(promise, clone)?;
 
-        let r = self.updater.create(clone)?;
-        self.map.insert(old.get_inner(), r.get_ref().get_inner());
-
-        Ok(r.get_ref())
+        Ok(Ref::new(new_ref))
     }
     fn clone_plainref(&mut self, old: PlainRef) -> Result<PlainRef> {
         if let Some(&new_ref) = self.map.get(&old) {
             return Ok(new_ref);
         }
         let obj = self.resolver.resolve(old)?;
-        let clone = obj.deep_clone(self)?;
-
-        let new = self.updater.create(clone)?
-            .get_ref().get_inner();
-
+        let promise = self.updater.promise::<Primitive>();
+        let new = promise.get_inner();
         self.map.insert(old, new);
+        let clone = obj.deep_clone(self)?;
+        self.updater.fulfill(promise, clone)?;
 
         Ok(new)
     }
     fn clone_rcref<T: DeepClone + ObjectWrite + DataSize>(&mut self, old: &RcRef<T>) -> Result<RcRef<T>> {
         let old_ref = old.get_ref().get_inner();
         if let Some(&new_ref) = self.map.get(&old_ref) {
-            let arc = self.rcrefs.get(&new_ref).unwrap().clone().downcast()?;
+            // no typed value is at hand if the object was copied through an untyped reference,
+            // or is still being copied (a reference cycle through typed references)
+            let arc = match self.rcrefs.get(&new_ref) {
+                Some(any) => any.clone().downcast()?,
+                None => bail!("{:?} is referenced with and without a type, or cyclically", old_ref)
+            };
             return Ok(RcRef::new(new_ref, arc));
         }
 
+        // only the number is needed: `update` stores a value of any type under it
+        let promise = self.updater.promise::<Primitive>();
+        let new_ref = promise.get_inner();
+        self.map.insert(old_ref, new_ref);
         let new = old.data().deep_clone(self)?;
-        let new = self.updater.create::<T>(new)?;
-        self.rcrefs.insert(new.get_ref().get_inner(), AnySync::new(new.data().clone()));
-        self.map.insert(old_ref, new.get_ref().get_inner());
+        let new = self.updater.update::<T>(new_ref, new)?;
+        self.rcrefs.insert(new_ref, AnySync::new(new.data().clone()));
 
         Ok(new)
     }
